@@ -444,6 +444,12 @@ func runC02Case(c cfg, seed uint64, npeers int, keys map[string]struct{}) (evals
 				d.syncOps = append(d.syncOps, c02Op{kind: "async-burst", nrec: rr.Range(1100, 2600)})
 				continue
 			}
+			if rr.Intn(8) == 0 {
+				// an operation that moves no bytes (empty slice, empty segment list, a reader at EOF) must be accepted
+				// and must not change what happens to the operations after it
+				kind := []string{"write", "writev", "readfrom"}[rr.Intn(3)]
+				d.syncOps = append(d.syncOps, c02Op{kind: kind, data: []byte{}, nrec: 0})
+			}
 			data, k := mkData()
 			kind := []string{"write", "write", "writev", "writev", "readfrom"}[rr.Intn(5)]
 			d.syncOps = append(d.syncOps, c02Op{kind: kind, data: data, nrec: k})
